@@ -21,6 +21,15 @@ ENGINE_VERSION = "1"
 class ToolError(Exception):
     pass
 
+def limit_memory(gb):
+    """preexec_fn: address-space limit for a harness process, so that code under test that
+    allocates without bound fails inside that process instead of taking the machine down."""
+    import resource
+    def fn():
+        b = int(gb * 1024 * 1024 * 1024)
+        resource.setrlimit(resource.RLIMIT_AS, (b, b))
+    return fn
+
 def log(*a):
     print(*a, file=sys.stderr, flush=True)
 
@@ -202,7 +211,8 @@ def run_harness_shards(scn_path, out_prefix, shards, cap, timeout=1500, event_bu
                "--event-budget", str(event_budget)]
         if resume:
             cmd += ["--resume-after", resume]
-        return out, root, subprocess.Popen(cmd, stdout=subprocess.PIPE, stderr=subprocess.PIPE, text=True)
+        return out, root, subprocess.Popen(cmd, stdout=subprocess.PIPE, stderr=subprocess.PIPE, text=True,
+                                           preexec_fn=limit_memory(12))
     active = {i: (0,) + start(i, 0, None) for i in range(shards)}
     combined = {i: "%s.%d.trace" % (out_prefix, i) for i in range(shards)}
     for i in combined:
@@ -519,10 +529,24 @@ def run_vectors(kind, vecs, wdir, tag):
     while True:
         cmd = [N2V, "vec", kind, "--in", inp, "--out", outp, "--skip", str(skip),
                "--root", "/dev/shm/n2v-vec-%d-%s" % (os.getpid(), tag)]
+        mark = outp + ".mark"
+        if os.path.exists(mark):
+            os.remove(mark)
         try:
-            p = subprocess.run(cmd, stdout=subprocess.PIPE, stderr=subprocess.PIPE, text=True, timeout=3000)
+            p = subprocess.run(cmd, stdout=subprocess.PIPE, stderr=subprocess.PIPE, text=True, timeout=3000,
+                               preexec_fn=limit_memory(6))
         except subprocess.TimeoutExpired:
             p = None
+        if p is not None and p.returncode == 4 and os.path.exists(mark):
+            # the watchdog found a vector that does not terminate
+            idx = int(open(mark).read().strip())
+            aborts += 1
+            total["n"] += idx - skip; total["nbad"] += 1
+            total["bad"].append({"kind": "timeout", "index": idx, "vector": vecs[idx - 1], "stderr": ""})
+            skip = idx
+            if aborts >= 8:
+                return total
+            continue
         if p is not None and p.returncode == 0:
             s = json.load(open(outp, errors="replace"))
             total["n"] += s["n"]; total["nbad"] += s["nbad"]; total["bad"] += s["bad"]
@@ -532,10 +556,9 @@ def run_vectors(kind, vecs, wdir, tag):
         if p is not None and p.returncode == 2:
             raise ToolError("n2v vec %s failed: %s" % (kind, p.stderr[-2000:]))
         # abort / hang: find the culprit with --mark (slower), then continue behind it
-        mark = outp + ".mark"
         try:
             p2 = subprocess.run(cmd + ["--mark", mark], stdout=subprocess.PIPE, stderr=subprocess.PIPE,
-                                text=True, timeout=3000)
+                                text=True, timeout=3000, preexec_fn=limit_memory(6))
             rc2 = p2.returncode; err2 = p2.stderr
         except subprocess.TimeoutExpired:
             rc2 = -999; err2 = "timeout"
